@@ -996,7 +996,15 @@ class BaseImage(metaclass=ImageMeta):
 
         if not method:
             if cls._render_methods:
-                cls._render_method = cls._default_render_method
+                if "_default_render_method" in vars(cls):
+                    # Defines the default; has no parent style class to follow
+                    cls._render_method = cls._default_render_method
+                else:
+                    # Unset, so that the class follows its parent style class again
+                    try:
+                        del cls._render_method
+                    except AttributeError:  # Wasn't set on this class
+                        pass
         else:
             cls._render_method = method
 
